@@ -315,6 +315,43 @@ fn judge_reopen(h: &MHist, mroot: &Path, allowed: &[State]) -> (Option<(String, 
     }
 }
 
+/// After a successful reopen of a damaged manifest: apply one more edit, reopen again, and
+/// require exactly (what the reopen showed) + (that edit).
+fn edit_after_recovery(h: &MHist, mroot: &Path) -> Option<(String, String)> {
+    exec::quiet_panics(true);
+    let r = catch_unwind(AssertUnwindSafe(|| -> Result<(), (String, String)> {
+        let mut m = Manifest::open(options(h.ratio), mroot).map_err(|e| ("second-reopen-failed".to_string(), format!("{e}")))?;
+        let before = read_state(&m);
+        let mut e = Edit::default();
+        e.add("zz-added-after-recovery").map_err(|x| ("edit-rejected".to_string(), format!("{x}")))?;
+        e.info('z', "after-recovery").map_err(|x| ("edit-rejected".to_string(), format!("{x}")))?;
+        m.apply(e).map_err(|x| ("apply-after-recovery-failed".to_string(), format!("{x}")))?;
+        drop(m);
+        let m = Manifest::open(options(h.ratio), mroot)
+            .map_err(|e| ("reopen-after-acknowledged-edit-failed".to_string(), format!("the edit applied after recovery was acknowledged, then: {e}")))?;
+        let got = read_state(&m);
+        let mut want = before.clone();
+        want.0.insert("zz-added-after-recovery".to_string());
+        want.1.insert('z', "after-recovery".to_string());
+        if got != want {
+            return Err((
+                "state-after-recovery-and-one-more-edit-is-not-recovered-state-plus-edit".to_string(),
+                format!("recovered {before:?}, after one more edit and a reopen {got:?}"),
+            ));
+        }
+        Ok(())
+    }));
+    exec::quiet_panics(false);
+    match r {
+        Ok(Ok(())) => None,
+        Ok(Err(x)) => Some(x),
+        Err(_) => {
+            let p = exec::take_panic();
+            Some((format!("panic-after-recovery:{}", panic_class(&p)), p))
+        }
+    }
+}
+
 fn analyse_points(trace: &[Ev]) -> Vec<(usize, usize, Option<usize>, &'static str)> {
     // (event index, acked ops, in-flight op, next call kind)
     let mut out = Vec::new();
@@ -454,6 +491,12 @@ fn examine(h: &MHist, worker: usize, seed: u64, only: Option<(Option<(u64, Persi
                 res.distinct.insert(format!("cut|{}|{tag}", if at_line_start { "line-boundary" } else { "mid-line" }));
                 if let Some((class, detail)) = v {
                     res.viols.push(Viol { class: format!("cut:{class}"), detail: format!("MANIFEST cut to {len} of {} bytes: {detail}", bytes.len()), crash: None, cut: Some(len as u64) });
+                } else if tag == "prefix-state" {
+                    // The recovered manifest must keep working: one more edit, one more reopen.
+                    // (judge_reopen opened and dropped it once already, which is the first reopen.)
+                    if let Some((class, detail)) = edit_after_recovery(h, &cut_dir) {
+                        res.viols.push(Viol { class: format!("cut:{class}"), detail: format!("MANIFEST cut to {len} of {} bytes: {detail}", bytes.len()), crash: None, cut: Some(len as u64) });
+                    }
                 }
             }
             let _ = std::fs::remove_dir_all(&cut_dir);
